@@ -207,6 +207,7 @@ Inductive op :=
 | OCloseIdle                    (* Transport.CloseIdleConnections *)
 | OBg                           (* the pending handlePendingAltSvc goroutine (if any) runs now *)
 | OReq                          (* one GET to the origin *)
+| OReqClose                     (* one GET carrying Connection: close *)
 | OFork (a : forkact).          (* c2 := Clone(); a applied to c2; one GET with c2 (+ its Alt-Svc goroutine); c2 is
                                    dropped and the sequence goes on with the ORIGINAL client *)
 
@@ -357,6 +358,34 @@ Definition after_response (e : env) (r : res) : res :=
   end.
 
 Definition do_req_gen (guard : bool) (e : env) (c : client) : res := after_response e (round_trip_gen guard e c).
+
+(* A request carrying Connection: close (isConnectionCloseRequest).  HTTP/1.1: the connection it travels on -
+   idle or new - is not kept.  HTTP/2: clientConnPool.GetClientConn gives it a connection of its own whenever it
+   may dial (forced HTTP/2; also the round trip that follows the ALPN hand-off of a connection the HTTP/1 dialler
+   has just made - that one stays pooled and a second, single-use one is dialled by the http2 transport); a cached
+   connection used through RoundTripOnlyCachedConn is marked doNotReuse and closed afterwards.  HTTP/3 does not
+   look at the header. *)
+Definition clear_idle (c : client) : client :=
+  match c_force c with
+  | FH1 => with_idle (c_idle c) false c
+  | _ => with_idle false (c_idle1 c) c
+  end.
+Definition own_h2_conn (e : env) (c : client) : outcome * list dial :=
+  let '(o, ds, _) := rt_h2_dial e (with_t2 false c) in (o, ds).
+Definition round_trip_close (guard : bool) (e : env) (c : client) : res :=
+  match c_force c with
+  | FH2 => let '(o, ds) := own_h2_conn e c in (o, ds, c)
+  | _ =>
+    let '(o, ds, c1) := round_trip_gen guard e c in
+    match o, ds with
+    | Use V2, [] => (o, ds, with_t2 false c1)
+    | Use V2, _ => let '(o2, ds2) := own_h2_conn e c1 in (o2, ds ++ ds2, c1)
+    | Use V1, _ => (o, ds, clear_idle c1)
+    | _, _ => (o, ds, c1)
+    end
+  end.
+Definition do_req_close_gen (guard : bool) (e : env) (c : client) : res := after_response e (round_trip_close guard e c).
+Definition do_req_close := do_req_close_gen altsvc_only_unforced.
 Definition do_req := do_req_gen altsvc_only_unforced.
 Definition do_req_pinned := do_req_gen false.
 
@@ -429,6 +458,7 @@ Definition step_gen (guard : bool) (e : env) (c : client) (o : op) : obs * clien
   | OCloseIdle => (ObsCfg, with_idle false false (with_t2 false (if closeidle_closes_h3 then with_t3 T3None c else c)))
   | OBg => let '(ds, c') := do_bg e c in (ObsBg ds (alt_obs c'), c')
   | OReq => let '(o, ds, c') := do_req_gen guard e c in (ObsReq o ds, c')
+  | OReqClose => let '(o, ds, c') := do_req_close_gen guard e c in (ObsReq o ds, c')
   | OFork a =>
       (* the clone has its own configuration copy, connection pools and Alt-Svc bookkeeping: whatever is done to
          it and with it leaves the original exactly as it was *)
@@ -446,3 +476,36 @@ Fixpoint run_gen (guard : bool) (e : env) (c : client) (ops : list op) : list ob
   end.
 Definition run := run_gen altsvc_only_unforced.
 Definition run_pinned := run_gen false.
+
+(* ---------- two names of the origin (round 3) ----------
+   Connection caches, Alt-Svc bookkeeping and the http3 client entries are keyed by the authority of the URL;
+   the configuration is the client's.  A client talking to the same origin under two authorities A and B
+   (say localhost:p and 127.0.0.1:p) is therefore a pair of per-authority states that always carry the same
+   configuration: a request / background event / throw-away clone is directed at one authority and touches
+   that component only, every other operation is applied to both. *)
+Definition host_directed (o : op) : bool :=
+  match o with OReq | OReqClose | OBg | OFork _ => true | _ => false end.
+
+Definition step2 (eA eB : env) (w : client * client) (t : bool * op) : obs * (client * client) :=
+  let '(cA, cB) := w in
+  let '(b, o) := t in
+  if host_directed o then
+    if b then let '(x, cB') := step eB cB o in (x, (cA, cB'))
+    else let '(x, cA') := step eA cA o in (x, (cA', cB))
+  else
+    let '(x, cA') := step eA cA o in
+    let '(_, cB') := step eB cB o in (x, (cA', cB')).
+
+Fixpoint run2 (eA eB : env) (w : client * client) (ops : list (bool * op)) : list obs * (client * client) :=
+  match ops with
+  | [] => ([], w)
+  | t :: r => let '(x, w1) := step2 eA eB w t in
+              let '(xs, w2) := run2 eA eB w1 r in (x :: xs, w2)
+  end.
+
+(* what one authority sees of a two-authority sequence: everything but what was directed at the other *)
+Fixpoint proj_host (b : bool) (ops : list (bool * op)) : list op :=
+  match ops with
+  | [] => []
+  | (b', o) :: r => if negb (host_directed o) || Bool.eqb b b' then o :: proj_host b r else proj_host b r
+  end.
